@@ -14,8 +14,9 @@
     yields a packed-decimal key relative to 0001-01-01T00:00:00Z, which is order-isomorphic to the
     instant.  Zone offsets and the lax forms `time.Parse` still lets through (one-digit hour, `,`
     as fraction separator) are NOT accepted here; the generators never produce them.
-  Nothing is proved about this module; it is validated against the real encoding/json by the
-  correspondence runs (`loadraw`, `save`/`load`).  The theorems assume `Codec.Laws` instead.
+  The module is validated against the real encoding/json by the correspondence runs (`loadraw`,
+  `save`/`load`); its round-trip laws (`Codec.LawsOn`) are proved in `Proofs/HistoryJson*.lean` and used
+  by `Props/C16b.lean`.
 -/
 import WtfModel.Model.History
 namespace Wtf.History.Json
